@@ -198,6 +198,37 @@ def scenarios():
             src.close()
     S["receive_push(local)"] = receive_push
 
+    def _receive_pack_server(atomic):
+        def op(r):
+            # the server side of a push, end to end: ReceivePackHandler reads the commands and the pack from the
+            # wire, ingests the pack, then updates / creates / deletes refs and reports
+            from io import BytesIO
+            from dulwich.pack import write_pack_data
+            from dulwich.protocol import ReceivableProtocol, pkt_line
+            from dulwich.server import DictBackend, ReceivePackHandler
+            src, c, head = _source_with_new_commit(r)
+            try:
+                count, recs = src.generate_pack_data({head}, {c})
+                pk = BytesIO()
+                write_pack_data(pk.write, recs, src.object_format, num_records=count)
+            finally:
+                src.close()
+            Z = b"0" * 40
+            topic = r.refs[b"refs/heads/topic"]
+            caps = b"report-status delete-refs" + (b" atomic" if atomic else b"")
+            req = (pkt_line(head + b" " + c + b" refs/heads/master\0" + caps + b"\n")
+                   + pkt_line(topic + b" " + Z + b" refs/heads/topic\n")
+                   + pkt_line(Z + b" " + c + b" refs/heads/pushed/new\n")
+                   + pkt_line(None) + pk.getvalue())
+            inp, out = BytesIO(req), BytesIO()
+            proto = ReceivableProtocol(inp.read, out.write)
+            ReceivePackHandler(DictBackend({"/": r}), ["/"], proto).handle()
+            if b"unpack ok" not in out.getvalue():
+                raise AssertionError(f"server refused the push: {out.getvalue()[-200:]!r}")
+        return op
+    S["receive_pack(server handler)"] = _receive_pack_server(False)
+    S["receive_pack(server handler, atomic)"] = _receive_pack_server(True)
+
     def fetch_into(r):
         from dulwich import porcelain
         src, c, head = _source_with_new_commit(r)
@@ -674,6 +705,24 @@ def run(ctx):
             rec.cleanup()
             raise MachineryError(f"scenario {name}/{layout} failed fault-free: {rec.result.exc} {rec.result.exc_msg}")
         post_refs, _ = repo_facts(rec.work)
+        if ctx.quick:
+            # long runs of consecutive writes into the same (lock/temp) file differ only in that file's length:
+            # quick keeps both ends of each run, thorough keeps every state
+            kept, i_ = [], 0
+            while i_ < len(rec.snaps):
+                j_ = i_
+                d0 = rec.snaps[i_][1]
+                while d0.startswith("fwrite ") and j_ + 1 < len(rec.snaps) and rec.snaps[j_ + 1][1] == d0:
+                    j_ += 1
+                run_ = rec.snaps[i_:j_ + 1]
+                if len(run_) > 12:
+                    for sn in run_[6:-6]:
+                        shutil.rmtree(sn[2], ignore_errors=True)
+                    run_ = run_[:6] + run_[-6:]
+                kept += run_
+                i_ = j_ + 1
+            ctx.cov["quick_states_thinned"] = ctx.cov.get("quick_states_thinned", 0) + len(rec.snaps) - len(kept)
+            rec.snaps = kept
         U = Universe()
         U.learn(rec.snaps[0][2] if rec.snaps else rec.work)
         # the initial repository is snapshot 0's predecessor: learn from a pristine rebuild as well
